@@ -221,6 +221,13 @@ func c04Run(r *core.Run) {
 			roles := pickRoles(t, "ca-roles")
 			cfg.Clients["ca1-group"] = &config.ClientConfig{Nickname: "ca1-people", Roles: roles, Certificate: string(pki["ca-1"].CertPEM)}
 			caRoles["ca-1"] = roles
+			if t.Chance(1, 2, "second-ca-client") {
+				// a second, disjoint client CA with roles of its own: each CA's
+				// certificates get that CA's roles and name, never the other's
+				roles2 := pickRoles(t, "ca2-roles")
+				cfg.Clients["ca2-group"] = &config.ClientConfig{Nickname: "ca2-people", Roles: roles2, Certificate: string(pki["ca-2"].CertPEM)}
+				caRoles["ca-2"] = roles2
+			}
 		}
 		var trusted []*net.IPNet
 		switch proxyMode {
@@ -342,7 +349,7 @@ func c04Run(r *core.Run) {
 					}
 				}
 				if roles, ok := caRoles[id.Issuer.Name]; ok && id.Cert.NotAfter.After(time.Now()) && clientPurpose {
-					return c04Caller{Known: true, Name: "ca1-people", Roles: roles}
+					return c04Caller{Known: true, Name: map[string]string{"ca-1": "ca1-people", "ca-2": "ca2-people"}[id.Issuer.Name], Roles: roles}
 				}
 			}
 			return c04Caller{}
